@@ -172,7 +172,7 @@ impl<S: MdkStorageProvider> Scene<S> {
                 let collides = match (&inv.nostr, &inv.mls) { (Some(n), Some(g)) => self.b.get_groups().map(|gs| gs.iter().any(|x| x.nostr_group_id == *n && x.mls_group_id != *g)).unwrap_or(false), _ => false };
                 let wid = EventId::from_byte_array([wr as u8 + 1; 32]);
                 let r = catch_unwind(AssertUnwindSafe(|| self.b.process_welcome(&wid, &inv.rumor)));
-                let facts = format!("shape={} dec={} kp={} gid={} id={}", inv.shape as u8, (inv.dec && !collides) as u8, inv.kp, inv.gid, inv.id.map(|x| x.to_string()).unwrap_or("-".into()));
+                let facts = format!("shape={} dec={} col={} kp={} gid={} id={}", inv.shape as u8, inv.dec as u8, collides as u8, inv.kp, inv.gid, inv.id.map(|x| x.to_string()).unwrap_or("-".into()));
                 let res = match r { Ok(Ok(_)) => "ok", Ok(Err(_)) => "err", Err(_) => "PANIC" };
                 (format!("{} | {facts}", t.join(" ")), self.fingerprint(res))
             }
